@@ -37,10 +37,11 @@ PROPS = {
         "assumptions": ["propagation is invariant under order-preserving relabelling of the qubits the circuit touches; untouched positions are checked unchanged by the harness"],
     },
     "C11": {
-        "lean_modules": ["StimModel.Props.C11", "StimModel.Generated.GateThms", "StimModel.Generated.PrependThms"],
+        "lean_modules": ["StimModel.Props.C11", "StimModel.Props.C11b", "StimModel.Generated.GateThms", "StimModel.Generated.PrependThms"],
         "areas": [
             {"area": "gatetab", "n": 1, "extra": ["Prepend"]},
             {"area": "tableau", "n": {"quick": 400, "thorough": 20000}},
+            {"area": "amps", "n": {"quick": 450, "thorough": 9000}},
         ],
         "rule": "Tableau::random and circuit-generated tableaus (sizes 1..6 and 63..65,127..129), 3 word widths: apply, then, inverse (oracle: both compositions are the identity), "
                 "raised_to (small exponents by iterated composition, large ones through the element order), direct sum, scatter append/prepend, apply_within; "
@@ -49,7 +50,7 @@ PROPS = {
                 "rank-and-sign analysis; distinct = distinct case descriptions",
         "trusted_base": [],
         "partial": ["apply_then / apply_mul / then_assoc are proved exhaustively for one qubit (all 24 Cliffords) and validated by correspondence for larger sizes; the general "
-                    "apply_mul_of_valid lemma is not yet proved", "tableau<->unitary and state-vector conversions are not yet covered"],
+                    "apply_mul_of_valid lemma is not yet proved", "tableau<->unitary and state-vector conversions are judged by the amplitude oracle (Model/Amps, tied to every documented gate unitary by C11b.doc_unitaries_satisfy_oracle) for 1..4 (matrices) and 1..5 (vectors) qubits; that intertwining X_k, Z_k determines the unitary up to a scalar (Schur) is used, not proved in Lean; rejection of non-Clifford matrices / non-stabilizer vectors is not demanded (the converters snap amplitudes within a tolerance by design)"],
         "assumptions": [],
     },
     "C09": {
@@ -346,6 +347,9 @@ _CLI_RULES = {
     "C03": "area cli: `stim analyze_errors` (flag matrix) whose printed model is parsed back and judged the same way",
     "C10": "area cli: `stim analyze_errors --decompose_errors` (with the two decomposition flags) judged the same way",
     "C18": "area cli: `stim explain_errors` (--dem_filter, --single): text equals the library's explanation",
+    "C11": "area amps: tableau_to_unitary (random tableaus and circuit tableaus, 1..4 qubits, both endiannesses, 3 word widths), unitary_to_tableau of those matrices times a global phase w^j (exact equality with the tableau), "
+           "circuit_to_output_state_vector (1..5 qubits), stabilizer_state_vector_to_circuit (either endianness, global phase), TableauSimulator::to_state_vector after circuits with measurements and feedback (all 4^n Pauli expectations), "
+           "amplitudes canonicalised to directions w^j and judged exactly by the Lean amplitude model",
     "C19": "area cli: `stim gen` (--code/--gen, 6 code/task pairs, noise flags, rounds up to 2^32+1): printed text parses to the generator's circuit, header names "
            "task/rounds/distance, small instances judged by `gencode check`",
 }
